@@ -24,7 +24,7 @@ pub fn def() -> CheckDef {
         id: "C04",
         level: "exploration",
         cases: |t| match t {
-            Tier::Quick => 2_500 + DIFAT_QUICK,
+            Tier::Quick => 10_000 + DIFAT_QUICK,
             Tier::Thorough => 150_000 + DIFAT_THOROUGH,
         },
         gen,
